@@ -1,5 +1,6 @@
 import PlushModel
 import PlushProofs.Lib.EvalKeepsCur
+import PlushProofs.Lib.EvalKeepsTree
 import PlushProofs.Props.C10
 /-!
   C09 — names bound inside for / function / partial / contentOf scopes never leak or clobber.
@@ -92,5 +93,25 @@ theorem C09_expr_restores_context (fuel : Nat) (e : Option Expr) (s : ES) (h : s
 /-- instance: a whole render started in context `ctx` comes back with the caller's context -/
 theorem C09_render_restores_context (fuel : Nat) (src : Bytes) (ctx : Nat) (s : ES) (h : settledR (renderIn fuel src ctx s).1) :
     (renderIn fuel src ctx s).2.cur = s.cur := (allCur fuel).renderIn src ctx s h
+
+/-! ### Evaluator-wide: the scope tree is append-only (proof in `PlushProofs/Lib/EvalKeepsTree.lean`) -/
+
+/-- NO SCOPE IS EVER REMOVED OR RE-PARENTED, for every program, data and fuel, on success, on error and on a
+    fatal outcome alike: after any evaluator function has run, every context that existed before still exists
+    and has the same parent (`Store.Grows`: the frame array only grows, the `outer` link of every old frame is
+    unchanged). Evaluation creates child scopes (`ctxNewChild`) and writes variables (`Store.set`), nothing
+    else touches the store. All 27 functions are walked by one tactic. Together with
+    `C09_context_restored_everywhere` this is the shape of the scope discipline: a fixed tree that grows at the
+    leaves, and a cursor that always returns to where it was. -/
+theorem C09_scope_tree_append_only (fuel : Nat) : AllKT fuel := allKT fuel
+
+/-- instance: a whole render, whatever it does, leaves every existing scope's parent link alone -/
+theorem C09_render_keeps_scope_tree (fuel : Nat) (src : Bytes) (ctx : Nat) (s : ES) :
+    s.store.Grows (renderIn fuel src ctx s).2.store := ((allKT fuel).renderIn src ctx).grows s
+
+/-- instance, spelled out for one scope `i` that exists before an expression is evaluated -/
+theorem C09_expr_keeps_parent (fuel : Nat) (e : Option Expr) (s : ES) (i : Nat) (hi : i < s.store.frames.size) :
+    ((evalExpr fuel e s).2.store.frames[i]?).map Frame.outer = (s.store.frames[i]?).map Frame.outer :=
+  (((allKT fuel).evalExpr e).grows s).2 i hi
 
 end Plush
